@@ -168,8 +168,10 @@ impl RxMode {
             LorawanRxMode::Single { ms } => {
                 // Since both sx126x and sx127x have a preamble-based timeout, we translate
                 // the additional millisecond delay into symbols and add it to the amount of preamble symbols.
-                const PREAMBLE_SYMBOLS: u16 = 13; // 12.25
-                let num_symbols = PREAMBLE_SYMBOLS + bb.delay_in_symbols(ms);
+                // 12.25 preamble symbols, plus one because the margin below is rounded down
+                // to whole symbols: the window must not close before preamble + margin
+                const PREAMBLE_SYMBOLS: u16 = 14;
+                let num_symbols = PREAMBLE_SYMBOLS.saturating_add(bb.delay_in_symbols(ms));
                 RxMode::Single(num_symbols)
             }
         }
